@@ -44,6 +44,8 @@ macro_rules! soft {
 }
 
 pub const HARNESS: &str = "HARNESS";
+/// not a finding: the history could not be continued meaningfully
+pub const ABANDON: &str = "ABANDON";
 
 /// Transcripts as per-line digests instead of full text (set from the command line).
 pub static TRANSCRIPT_DIGEST: std::sync::atomic::AtomicBool = std::sync::atomic::AtomicBool::new(false);
@@ -270,6 +272,8 @@ pub struct Mon<K: El, V: El> {
     pub focus: &'static str,
     /// an element was removed from the current old table by something other than carrying
     pub old_removed: bool,
+    /// judge object lifetimes only (see `step_ledger_only`)
+    pub ledger_only: bool,
 }
 
 pub fn expected_r() -> usize {
@@ -309,6 +313,7 @@ impl<K: El, V: El> Mon<K, V> {
             expected_r: expected_r(),
             focus: "",
             old_removed: false,
+            ledger_only: false,
         }
     }
 
@@ -388,6 +393,9 @@ impl<K: El, V: El> Mon<K, V> {
             self.stats.hist_split = true;
         }
         let _ = take_violations();
+        if self.ledger_only {
+            return self.step_ledger_only(op, &st0, loc0);
+        }
         let r = catch(|| self.exec(op, &st0, loc0));
         let out = match r {
             Err(p) => {
@@ -473,6 +481,36 @@ impl<K: El, V: El> Mon<K, V> {
             }
         }
         Ok(out.act)
+    }
+
+    /// Lifetime-only mode (C06): whatever else the map does wrong, every object must die exactly
+    /// once and the number of live objects must match the map's *own* `len()`. Nothing about
+    /// contents, results or layout is judged here, so that a double drop that is the late
+    /// consequence of some other defect is not masked by the rule that catches the defect first.
+    fn step_ledger_only(&mut self, op: &Op, st0: &State, loc0: Option<Location>) -> Res<Obs> {
+        let r = catch(|| self.exec(op, st0, loc0));
+        self.nops += 1;
+        self.stats.calls += 1;
+        *self.stats.by_code.entry(op.code.name()).or_default() += 1;
+        for (p, m) in take_violations() {
+            if p == "C06" {
+                viol!("C06", "{m} during {}", op.encode());
+            }
+        }
+        match r {
+            Ok(Ok(_)) => {}
+            // a misbehaving or panicking call ends the history without a verdict in this mode
+            _ => viol!(ABANDON, "history abandoned at {}", op.encode()),
+        }
+        let len = match catch(|| self.map.len()) {
+            Ok(l) => l,
+            Err(_) => viol!(ABANDON, "len() panicked"),
+        };
+        let live = ledger_live();
+        if live != self.live_base + 2 * len {
+            viol!("C06", "ledger: {} live objects after {} but the map reports len() = {} (2 objects per pair expected: {})", live, op.encode(), len, self.live_base + 2 * len);
+        }
+        Ok(Vec::new())
     }
 
     fn post(&mut self, op: &Op, st0: &State, loc0: Option<Location>, out: &Out) -> Res<()> {
@@ -887,7 +925,8 @@ impl<K: El, V: El> Mon<K, V> {
 
     /// Final drop accounting: drop the map, everything must be released.
     pub fn finish(self) -> Res<Stats> {
-        let Mon { map, model, live_base, tables_base, alloc_checks, conserve, stats, .. } = self;
+        let Mon { map, model, live_base, tables_base, alloc_checks, conserve, stats, ledger_only, .. } = self;
+        let alloc_checks = alloc_checks && !ledger_only;
         let _ = take_violations();
         let r = catch(move || drop(map));
         if let Err(p) = r {
